@@ -50,7 +50,7 @@ spec -> code: TLC builds argument lists by actions (a bottom-up stack machine, s
     {% for %} loop, or bare one after the other - rendered with both contexts; every copy must hand over in
     every evaluation what the single tag does (the second loop starts the cycle again).  Lists of W: all
     four forms on the probe and the component tag in every layout; the other configurations: the probe tag as
-    a pair in loops and the component tag as a bare triple, in one layout per list.
+    a pair in loops or (alternating with the case number) the component tag as a bare triple, in one layout per list.
 code -> spec: a seeded random driver builds deeper / wider lists (over the syntax-sensitive and the
     value-sensitive leaves together) with random styles (knob values outside the covering array),
     renders them with its own text function, runs the real tags and
@@ -181,7 +181,7 @@ VALUE_CONFIGS = {
         "N": (2, 1, 1, 2, 1, "vals", False, 1),
         "M": (3, 1, 1, 2, 1, "core", False),
         "T": (2, 1, 1, 2, 1, "types", False, 1),
-        "W": (2, 1, 1, 2, 1, "state", False, 1),
+        "W": (1, 1, 1, 1, 1, "state", False, 1),
     },
 }
 SIM_CONFIGS = {"S": (9, 5, 3, 3, 4, "mixed", False)}
@@ -593,22 +593,24 @@ def show(obs: Dict[str, Any]) -> Dict[str, Any]:
     return d
 
 
-def together_plan(forms: List[Dict[str, Any]], full: bool, first: bool) -> List[Tuple[str, int, bool]]:
+def together_plan(forms: List[Dict[str, Any]], full: bool, first: bool, alt: int = 0) -> List[Tuple[str, int, bool]]:
     """Which templates with several same-text tags (TagArgs!TogetherForms) a layout is replayed in:
     lists over the stateful alphabet (full) in every form on the probe and the component tag in every
-    layout; the others in their first layout - probe tag: the first form, component tag: the second."""
+    layout; the others in their first layout - alternating with the case number (alt) the probe tag in
+    the first form or the component tag in the second."""
     if not forms:
         return []
     if full:
         return [(p, f["n"], f["loop"]) for p in ("probe", "comp") for f in forms]
     if not first:
         return []
-    return [("probe", forms[0]["n"], forms[0]["loop"]), ("comp", forms[1 % len(forms)]["n"], forms[1 % len(forms)]["loop"])]
+    f = forms[alt % 2 % len(forms)]
+    return [("probe" if alt % 2 == 0 else "comp", f["n"], f["loop"])]
 
 
 def check_case(case: Dict[str, Any], styles: List[Dict[str, Any]], sfrom: int,
                pick: Optional[List[int]] = None, form: Optional[bool] = None,
-               forms: Optional[List[Dict[str, Any]]] = None, full: bool = False) -> List[Dict[str, Any]]:
+               forms: Optional[List[Dict[str, Any]]] = None, full: bool = False, alt: int = 0) -> List[Dict[str, Any]]:
     """Replay one exported case under the exported styles (`pick`: positions in case["texts"],
     default all); -> list of failures.  Every compiled template is rendered more than once:
     in the first replayed layout (form True) the probe tag stands in {% for it in its %} and is
@@ -648,7 +650,7 @@ def check_case(case: Dict[str, Any], styles: List[Dict[str, Any]], sfrom: int,
             plan += [("short", [0], False)] + ([("slot", both, False)] if case.get("slot") else [])
         plan = [(p, r, lp, 1) for p, r, lp in plan]
         if not case["invalid"]:     # several tags with the same text in one template: each denotes what it does alone
-            plan += [(p, both, lp and can_loop, n) for p, n, lp in together_plan(forms or [], full, first)
+            plan += [(p, both, lp and can_loop, n) for p, n, lp in together_plan(forms or [], full, first, alt)
                      if can_loop or not lp]
         for path, runs, loop, copies in plan:
             res = observe_runs(path, text, st["slash"], runs, loop, copies)
@@ -796,7 +798,7 @@ def _work(chunk):
     h = _W["header"]
     for idx, case in chunk:
         out.append((idx, check_case(case, h["styles"], h["from"], picks(idx, len(case["texts"]), _W["k"]),
-                                    forms=h.get("together"), full=h.get("alpha") == "state")))
+                                    forms=h.get("together"), full=h.get("alpha") == "state", alt=idx)))
     return out
 
 
@@ -825,7 +827,7 @@ def replay_cases(chk: Check, header, cases, label: str, procs: int, k: Optional[
                                "style": f["style"], "path": f["path"], "text": f["text"], "form": f["form"],
                                "render": f["render"], "slash": header["styles"][f["style"] - 1]["slash"],
                                "slot": bool(case.get("slot")),
-                               "together": header.get("together"), "full": header.get("alpha") == "state",
+                               "together": header.get("together"), "full": header.get("alpha") == "state", "alt": i,
                                "hdr": {x: header[x] for x in HDR_KEYS if x in header},
                                "expect": case["expect"], "expects": case.get("expects"), "devs": case.get("devs", [])},
                               {"expected": f["expected"], "observed": f["observed"]}, key=f["key"])
@@ -843,7 +845,7 @@ def replay_cases(chk: Check, header, cases, label: str, procs: int, k: Optional[
     forms, full = header.get("together") or [], header.get("alpha") == "state"
     nvalid = sum(1 for c in cases if not c["invalid"])
     nvtexts = sum(len(picks(i, len(c["texts"]), k)) for i, c in enumerate(cases) if not c["invalid"])
-    ntog = (nvtexts * 2 * len(forms) if full else nvalid * 2) if forms else 0
+    ntog = (nvtexts * 2 * len(forms) if full else nvalid) if forms else 0
     chk.add("same_text_tags_templates", ntog)
     chk.add("compiled_templates", ntog)
     chk.add("real_renders", 2 * ntog)
@@ -1471,7 +1473,7 @@ def replay(path: str) -> int:
                 "slot": case.get("slot", case["path"] == "slot")}
         styles = [{"slash": case.get("slash", case["text"].rstrip().endswith("/"))}]
         fails = [f for f in check_case(fake, styles, 1, form=case.get("form"), forms=case.get("together"),
-                                       full=bool(case.get("full"))) if f.get("path") == case["path"]]
+                                       full=bool(case.get("full")), alt=case.get("alt", 0)) if f.get("path") == case["path"]]
         print(json.dumps({"text": case["text"], "path": case["path"], "failures": fails}, indent=1, default=repr))
         return 1 if fails else 0
     if kind == "trace":
